@@ -61,6 +61,9 @@ struct ConnPlan {
     /// the client endpoint moves to another socket this long after connecting (0: port only,
     /// 1: another address)
     rebind: Option<(Ns, u32)>,
+    /// what the server application does with this client's connection attempts: 0 accept,
+    /// 1 `Incoming::refuse`, 2 drop the `Incoming` (documented to refuse), 3 `Incoming::ignore`
+    gate: u8,
 }
 
 #[derive(Default)]
@@ -431,7 +434,30 @@ async fn client_main(sim: Sim, res: Res, lbl: Lbl, ep: Endpoint, cfg: quinn::Cli
     lbl.set("connect");
     let conn = match ep.connect_with(cfg, server, "localhost") {
         Ok(c) => match c.await {
+            Ok(_) if plan.gate != 0 => {
+                sim.violate("async-refused-connection-established", format!("client {}: connect() succeeded although the server application {} every attempt of this client", ci, if plan.gate == 3 { "ignores" } else { "refuses" }));
+                return;
+            }
             Ok(c) => c,
+            Err(e) if plan.gate != 0 => {
+                // the attempt was meant to fail — with the reason the server's decision implies
+                let refused = matches!(&e, quinn::ConnectionError::ConnectionClosed(c) if c.error_code == quinn_proto::TransportErrorCode::CONNECTION_REFUSED);
+                let timed_out = matches!(e, quinn::ConnectionError::TimedOut);
+                let (fault_free, lossy) = { let r = res.lock().unwrap(); (r.fault_free, r.lossy) };
+                let ok = if plan.gate == 3 { timed_out } else { refused || (lossy && timed_out) };
+                if !ok && (fault_free || !timed_out) {
+                    sim.violate("async-connect-wrong-failure", format!("client {}: the server application {} the attempt, connect() failed with: {}", ci, match plan.gate { 1 => "refused", 2 => "dropped", _ => "ignored" }, e));
+                    return;
+                }
+                sim.with(|s| s.probes.hit(if refused { "connect_failed_refused" } else { "connect_failed_timed_out" }));
+                lbl.set("wait_idle()");
+                ep.wait_idle().await;
+                res.lock().unwrap().open_conns_at_end.push(ep.open_connections());
+                drop(ep);
+                res.lock().unwrap().clients_done += 1;
+                lbl.set("done");
+                return;
+            }
             Err(e) => {
                 sim.violate("async-connect-failed", format!("client {}: {}", ci, e));
                 return;
@@ -725,7 +751,7 @@ async fn server_conn(sim: Sim, res: Res, lbl: Lbl, conn: Connection, ci: u32, re
     lbl.set("done");
 }
 
-async fn server_main(sim: Sim, res: Res, lbl: Lbl, ep: Endpoint, n_conns: u32, addr_to_ci: BTreeMap<SocketAddr, u32>, resp: usize, seq_ci: Option<Vec<u32>>) {
+async fn server_main(sim: Sim, res: Res, lbl: Lbl, ep: Endpoint, n_conns: u32, addr_to_ci: BTreeMap<SocketAddr, u32>, resp: usize, seq_ci: Option<Vec<u32>>, gates: BTreeMap<u32, u8>) {
     let (tx, mut rx) = tokio::sync::mpsc::unbounded_channel::<()>();
     {
         let (s2, r2, ep2, tx2) = (sim.clone(), res.clone(), ep.clone(), tx.clone());
@@ -753,6 +779,24 @@ async fn server_main(sim: Sim, res: Res, lbl: Lbl, ep: Endpoint, n_conns: u32, a
                         }
                         None => addr_to_ci.get(&inc.remote_address()).copied().unwrap_or(999),
                     };
+                    match gates.get(&ci).copied().unwrap_or(0) {
+                        1 => {
+                            inc.refuse();
+                            s2.with(|s| s.probes.hit("incoming_refused"));
+                            continue;
+                        }
+                        2 => {
+                            drop(inc);
+                            s2.with(|s| s.probes.hit("incoming_dropped"));
+                            continue;
+                        }
+                        3 => {
+                            inc.ignore();
+                            s2.with(|s| s.probes.hit("incoming_ignored"));
+                            continue;
+                        }
+                        _ => {}
+                    }
                     // (one task per handshake: a stalled one must not hold up the others)
                     let (s3, r3, tx3) = (s2.clone(), r2.clone(), tx2.clone());
                     spawn(&s2, &r2, format!("server-conn{}", ci), move |l| {
@@ -848,7 +892,7 @@ fn draw_plan(ch: &mut Chooser, big: bool) -> ConnPlan {
             s.reset_after = None;
         }
     }
-    ConnPlan { streams, dgrams: if ch.chance("c18.dgrams", 1, 2) { ch.range("c18.n_dgrams", 1, 20) as u32 } else { 0 }, explicit_close: ch.chance("c18.explicit_close", 1, 2), parked: ch.chance("c18.parked", 1, 2), rebind: None }
+    ConnPlan { streams, dgrams: if ch.chance("c18.dgrams", 1, 2) { ch.range("c18.n_dgrams", 1, 20) as u32 } else { 0 }, explicit_close: ch.chance("c18.explicit_close", 1, 2), parked: ch.chance("c18.parked", 1, 2), rebind: None, gate: 0 }
 }
 
 fn run(mut ch: Chooser, ctx: &RunCtx, faults: bool, big: bool) -> RunOut {
@@ -861,6 +905,13 @@ fn run(mut ch: Chooser, ctx: &RunCtx, faults: bool, big: bool) -> RunOut {
             if ch.chance("c18.rebind", 1, 4) {
                 p.rebind = Some((ch.range_log("c18.rebind_us", 1, 3_000_000) * 1000, ch.choose("c18.rebind_kind", 2)));
             }
+        }
+    }
+    // some clients are turned away by the server application
+    for p in plans.iter_mut() {
+        if ch.chance("c18.gate", 1, 6) {
+            p.gate = 1 + ch.choose("c18.gate_kind", 3) as u8;
+            p.rebind = None;
         }
     }
     let knobs_s = if ch.chance("c18.default_knobs", 1, 2) { TKnobs::default() } else { TKnobs::draw(&mut ch) };
@@ -923,9 +974,10 @@ fn run(mut ch: Chooser, ctx: &RunCtx, faults: bool, big: bool) -> RunOut {
     for ci in 0..n_clients {
         addr_to_ci.insert(cfgs::addr(1 + ci, 0), ci);
     }
+    let gates: BTreeMap<u32, u8> = plans.iter().enumerate().map(|(ci, p)| (ci as u32, p.gate)).collect();
     {
         let (s2, r2) = (sim.clone(), res.clone());
-        spawn(&sim, &res, "server-main".to_string(), move |l| Box::pin(server_main(s2, r2, l, server_ep, n_clients, addr_to_ci, resp, None)));
+        spawn(&sim, &res, "server-main".to_string(), move |l| Box::pin(server_main(s2, r2, l, server_ep, n_clients, addr_to_ci, resp, None, gates)));
     }
     // clients
     for ci in 0..n_clients {
@@ -1210,7 +1262,7 @@ fn run_0rtt(mut ch: Chooser, ctx: &RunCtx) -> RunOut {
                 reset_after: None,
             })
             .collect();
-        ConnPlan { streams, dgrams: 0, explicit_close: true, parked: false, rebind: None }
+        ConnPlan { streams, dgrams: 0, explicit_close: true, parked: false, rebind: None, gate: 0 }
     };
     let first = small(&mut ch, 2);
     let early = small(&mut ch, 3);
@@ -1254,7 +1306,7 @@ fn run_0rtt(mut ch: Chooser, ctx: &RunCtx) -> RunOut {
         // the second connection's streams are the early ones (accepted) or the ones opened after
         // the handshake (early data refused: the server never sees the early streams)
         let seq = vec![0, if reject { 2 } else { 1 }];
-        spawn(&sim, &res, "server-main".to_string(), move |l| Box::pin(server_main(s2, r2, l, ep2, 1, BTreeMap::new(), resp, Some(seq))));
+        spawn(&sim, &res, "server-main".to_string(), move |l| Box::pin(server_main(s2, r2, l, ep2, 1, BTreeMap::new(), resp, Some(seq), BTreeMap::new())));
     }
     let cep = EpOpts { seed: 0xC11E, cid_len: 8, reset_key_seed: 100, ..Default::default() };
     let ep = Endpoint::new_with_abstract_socket(cfgs::endpoint_config(&cep), None, sim.socket(cfgs::addr(1, 0)), rt.clone()).expect("client endpoint");
